@@ -15,7 +15,7 @@ position and every serde(default) removed.  For each of the six languages
     from the source (Option depth and bare default: the generator's ground truth, cross-checked with the
     extracted Spec.C04Spec.c04_file_cells on the syn AST) and the twin's type text at the same position
     ("the marker never changes the underlying type").
-The marker matrix (17 base types x depth 0..2 x 7 default spellings x 4 positions) and the wrapper matrix (10 wrappers x 8
+The marker matrix (18 base types x depth 0..2 x 7 default spellings x 4 positions) and the wrapper matrix (10 wrappers x 8
 placements around / between / inside the Option layers x 4 positions) are enumerated on every run."""
 import json, re
 import vf, ir, irgen, extract, back
@@ -23,7 +23,7 @@ from vf import S, B, Lst
 
 LANGS = ['typescript', 'kotlin', 'swift', 'scala', 'go', 'python']
 WRAPS = ['Box', 'Arc', 'Rc', 'Cow', 'Cell', 'RefCell', 'Mutex', 'RwLock', 'Weak']
-PRIM_IR = {'String': 'String', 'u32': 'U32', 'bool': 'Bool', 'f64': 'F64', 'i8': 'I8', 'char': 'Char', 'I54': 'I54', 'u16': 'U16', 'f32': 'F32', 'U53': 'U53', 'i32': 'I32', 'u8': 'U8', 'i16': 'I16'}
+PRIM_IR = {'String': 'String', 'u32': 'U32', 'bool': 'Bool', 'f64': 'F64', 'i8': 'I8', 'char': 'Char', 'I54': 'I54', 'u16': 'U16', 'f32': 'F32', 'U53': 'U53', 'i32': 'I32', 'u8': 'U8', 'i16': 'I16', '()': 'Unit'}
 DEFAULTS = ['none', 'bare', 'merged', 'split', 'first', 'path', 'typeshare']     # how serde(default) is spelled
 COUNTS = {'bare', 'merged', 'split', 'first'}                                   # spellings containing the bare word
 
@@ -213,7 +213,7 @@ class Prog:
 BASES = [('prim', 'String'), ('prim', 'u32'), ('prim', 'bool'), ('prim', 'f64'), ('prim', 'i8'), ('prim', 'char'), ('prim', 'I54'),
          ('vec', ('prim', 'String'), ''), ('vec', opt(('prim', 'u8')), ''), ('map', ('prim', 'String'), ('prim', 'u32'), ''),
          ('array', ('prim', 'u8'), 3), ('slice', ('prim', 'String')), ('vec', ('vec', ('user', 'Other'), ''), ''),
-         ('user', 'Other'), ('gen', 'Pair', [('prim', 'String'), opt(('prim', 'u32'))]), ('param', 'T'), ('map', ('prim', 'String'), opt(('user', 'Other')), '')]
+         ('prim', '()'), ('user', 'Other'), ('gen', 'Pair', [('prim', 'String'), opt(('prim', 'u32'))]), ('param', 'T'), ('map', ('prim', 'String'), opt(('user', 'Other')), '')]
 
 
 class Namer:
@@ -379,6 +379,7 @@ def strip_head(raw, lang):
 
 
 STRUCT_VARIANT = re.compile(r'[Ww]q[a-z]{3}$')
+NEWTYPE_VARIANT = re.compile(r'[Vv]q[a-z]{3}$')
 SW_CASE = re.compile(r'^\s*case \.`?(\w+)`?:\s*$')
 
 
@@ -432,6 +433,11 @@ def rows_of_text(lang, text):
                 rows.append([d['name'], '', 'alias', tm, tm, False, base, d['type_raw']])
         elif d['kind'] == 'enum':
             for v in d['variants']:
+                if lang == 'typescript' and v['payload'] == 'unit' and NEWTYPE_VARIANT.search(v['name']):
+                    # a newtype variant of Option<()> is printed `content?: undefined`, the very text of a unit variant (DESIGN 15,
+                    # TypeScript); the generator names newtype variants V.. and unit variants U..
+                    rows.append([d['name'], v['name'], 'payload', bool(v.get('optional')), bool(v.get('optional')), False, 'undefined', 'undefined'])
+                    continue
                 if v['payload'] == 'newtype' and STRUCT_VARIANT.search(v['name']):
                     # Kotlin / Scala refer to the helper of a RENAMED enum under another name than it is defined (C09): the
                     # extractor cannot link it and reports a newtype payload; the generator names struct variants W..
@@ -468,7 +474,7 @@ def run(chk):
                 '(13 primitives, Vec/HashMap/array/slice/user/generic-instance/generic-parameter, nested) under 0..2 Option layers with stacks of &, Box/Arc/Rc/Cow/Cell/'
                 'RefCell/Mutex/RwLock/Weak around, between and inside the layers, path-qualified or not, and serde(default) absent / bare / merged / split over several '
                 'attributes / non-bare `default = "path"` / typeshare(default); both entries (source through parse, IR through generate_ir), six languages, random '
-                'prefix / package / acronyms / type_mappings. The marker matrix (17 base types x depth x 7 spellings x 4 positions) is enumerated every run. '
+                'prefix / package / acronyms / type_mappings. The marker matrix (18 base types x depth x 7 spellings x 4 positions) is enumerated every run. '
                 'non-trivial = distinct (language, entry, position, depth, default spelling, base type) judged inside dom_C04 with known_C04 = None')
     chk.assumptions = ['syn is not modelled: the model receives the AST libdrive `ast` produces from the same text',
                        'what the generated text MEANS to the target language is the reading of Spec/C04Readers.v + lib/extract.py (no target compilers installed)',
@@ -485,7 +491,7 @@ def run(chk):
     rng = chk.rng
     progs = [('matrix', matrix_program(b, k), {l: dict(BASE_CFG.get(l, {})) for l in LANGS}) for k, b in enumerate(BASES)]
     for k, w in enumerate(WRAPS + ['&']):
-        progs.append(('wrapper', wrapper_program(w, BASES[(3 * k) % 15], k), {l: dict(BASE_CFG.get(l, {})) for l in LANGS}))
+        progs.append(('wrapper', wrapper_program(w, BASES[(3 * k) % 16], k), {l: dict(BASE_CFG.get(l, {})) for l in LANGS}))
     nrand = 500 if chk.tier == 'quick' else 12000
     for k in range(nrand):
         progs.append(('random', random_program(rng, k), {l: random_cfg(rng, l) for l in LANGS}))
